@@ -696,7 +696,7 @@ def s1a_nodes(chk: Check, proj: Project, w, reach) -> None:
 
 
 MANIFEST = {
-    "text": "Race freedom by ownership, decided from the source for every schedule at once: all accesses to process-global state are enumerated and each must be a point access under a render-private id, a reviewed idempotent memo write, a lock-protected compound update, or a flag-last publication; whole-container observations, live iteration, check-then-read on evictable caches, unlocked compound updates and early 'ready' flags are reported with the site. It does not run threads. Also: re-entrant lazy resolution is idempotent (a helper never raises because its own output field is set), parsed tag values hanging off cached Nodes are never written after construction, and an instance the library shares between threads (as_view) keeps per-render state only in thread-confined storage. Round 4: purity of the class-media memo (shared with C16-S2). Round 5: shared-instance rule over all in-package Component subclasses, the value stored on a Template is this render's, lock pairing borrowed from C18. Round 6: accesses through a whole-container local alias of a global (also from closures) are classified like direct ones.",
+    "text": "Race freedom by ownership, decided from the source for every schedule at once: all accesses to process-global state are enumerated and each must be a point access under a render-private id, a reviewed idempotent memo write, a lock-protected compound update, or a flag-last publication; whole-container observations, live iteration, check-then-read on evictable caches, unlocked compound updates and early 'ready' flags are reported with the site. It does not run threads. Also: re-entrant lazy resolution is idempotent (a helper never raises because its own output field is set), parsed tag values hanging off cached Nodes are never written after construction, and an instance the library shares between threads (as_view) keeps per-render state only in thread-confined storage. Round 4: purity of the class-media memo (shared with C16-S2). Round 5: shared-instance rule over all in-package Component subclasses, the value stored on a Template is this render's, lock pairing borrowed from C18. Round 6: accesses through a whole-container local alias of a global (also from closures) are classified like direct ones. Round 7: shared-value rule also over the expression classes; states encoded as constants count as publications; the Media memo entry is complete when published (shared with C16-S2).",
     "note": "Trusted: single dict/set operations are atomic under the GIL; render ids do not collide; Django's engine, loaders and cache backends are thread-safe. Reviewed benign sites are tables in rules/C07.py (one symbol + reason each). Not decided: equality of outputs under interleaving as an observable.",
     "technique": "static access classification of shared state (inventory + call-graph reachability), lock-coverage and publication-order rules",
 }
